@@ -133,9 +133,70 @@ def layout_mixed_resolution(rng):
     return out
 
 
+def layout_mid_month(rng):
+    """monthly (sometimes quarterly) month-end periods running through months of different lengths
+    (February included most of the time), every cell evaluated on the SAME day of the month d <= 28
+    in later months: the fractional lags k + d/28, k + d/30, k + d/31 of neighbouring periods differ
+    by less than a day's worth, so a lag bound taken from one cell separates cells of other periods
+    that a date cutoff computed once per period end (or a whole-month count) cannot tell apart."""
+    res = rng.choice([1, 1, 1, 3])
+    y = rng.randrange(1996, 2032)
+    m0 = rng.choice([11, 12, 1, 2, 1, 2, rng.randrange(1, 13)]) if res == 1 else rng.choice([1, 4, 7, 10])
+    start = D(y, m0, 1)
+    d = rng.randrange(1, 29)
+    n_periods = rng.randrange(2, 6)
+    n_lags = rng.randrange(1, 4)
+    same_lags = rng.random() < 0.7
+    lags = sorted(rng.sample(range(0, 5), n_lags))
+    rows = []
+    for i in range(n_periods):
+        ps = gen.add_months_int(start, i * res)
+        pe = gen.add_months_int(ps, res - 1, end=True)
+        ks = lags if same_lags else sorted(rng.sample(range(0, 5), n_lags))
+        evs = []
+        for k in ks:
+            first = gen.add_months_int(pe + DAY, k)          # first day of the k-th month after the period
+            evs.append(first.replace(day=d))
+        rows.append((ps, pe, evs))
+    return rows
+
+
+def layout_valuation(rng, lag_behind=0):
+    """a complete triangle valued as of one date: periods of `res` months, every period observed at
+    each common valuation date from its own end up to the triangle's valuation date V (so EVERY
+    period has a cell on the latest diagonal). `lag_behind` > 0 gives the same triangle as it stood
+    `lag_behind` valuation dates earlier (periods not yet ended are absent). Returns a function of
+    lag_behind so that several slices share periods and valuation dates."""
+    res = rng.choice([1, 3, 3, 6, 12])
+    n_periods = rng.randrange(2, 5)
+    extra = rng.randrange(0, 3)
+    start = D(rng.randrange(1996, 2030), 1 if res == 12 else rng.choice(list(range(1, 13, res))), 1)
+    periods = []
+    for i in range(n_periods):
+        ps = gen.add_months_int(start, i * res)
+        periods.append((ps, gen.add_months_int(ps, res - 1, end=True)))
+    vals = [gen.add_months_int(periods[0][1], k * res, end=True) for k in range(n_periods + extra)]
+
+    def rows(lag_behind, thin=False):
+        upto = vals[:max(1, len(vals) - lag_behind)]
+        out = []
+        for ps, pe in periods:
+            evs = [v for v in upto if v >= pe]
+            if thin and len(evs) > 2:
+                keep = [e for e in evs[:-1] if rng.random() < 0.6]
+                evs = keep + evs[-1:]          # interior cells may be missing, the latest one stays
+            if evs:
+                out.append((ps, pe, evs))
+        return out
+    return rows, len(vals)
+
+
 def make_cells(rng, max_cells=28):
     n_slices = rng.choice([1, 1, 2, 2, 3, 4])
-    layout = rng.choice(["regular", "ragged", "daily", "daily", "mixed-res", "mixed-res"])
+    layout = rng.choice(["regular", "ragged", "daily", "daily", "mixed-res", "mixed-res", "mid-month", "mid-month",
+                         "valuation", "valuation"])
+    if layout == "valuation":
+        n_slices = rng.choice([2, 2, 3])
     kind = rng.choice(["C", "U", "I"])
     vkind = rng.choice(["int", "float", "iarr", "farr"])
     fields = rng.sample(gen.FIELDS, rng.randrange(1, 5))
@@ -147,11 +208,25 @@ def make_cells(rng, max_cells=28):
             return gen.layout_daily(rng)
         if layout == "mixed-res":
             return layout_mixed_resolution(rng)
+        if layout == "mid-month":
+            return layout_mid_month(rng)
         return gen.layout_regular(rng, shape="ragged" if layout == "ragged" else None)
 
-    rows = mk_rows()
     cells = []
     same_fields = rng.random() < 0.5
+    if layout == "valuation":
+        # slices valued as of DIFFERENT dates: one slice is complete at the overall latest valuation
+        # date (every period on the latest diagonal), the others stand 0-2 valuation dates behind
+        val_rows, n_vals = layout_valuation(rng)
+        lead = rng.randrange(len(metas))
+        for j, m in enumerate(metas):
+            behind = 0 if j == lead else rng.choice([0, 1, 1, 2])
+            r = val_rows(min(behind, n_vals - 1), thin=rng.random() < 0.4)
+            cells += gen.cells_from_layout(rng, r, m, kind=kind, fields=fields, vkind=vkind,
+                                           same_fields=same_fields)
+        rng.shuffle(cells)
+        return cells, {"layout": layout, "kind": kind, "vkind": vkind, "slices": len(metas), "fields": len(fields)}
+    rows = mk_rows()
     for m in metas:
         r = rows if same_layout else mk_rows()
         cells += gen.cells_from_layout(rng, r, m, kind=kind, fields=fields, vkind=vkind,
@@ -595,6 +670,21 @@ def correspondence(ctx):
                     what=f"clip(max_dev={bm!r}) / filter(dev_lag('month') > {bm!r})")
             else:
                 ctx.fail("clip with a single month-lag bound raised", {"cells": wcells, "bound": int(bm)})
+        # … and with a FRACTIONAL bound: the bit-identical float lag of one cell applied to all cells
+        lbf = lag_bound(rng, t, "month", p_int=0.0)
+        if lbf is not None:
+            bm = lbf[0]
+            a1 = call(t.clip, min_dev=bm)
+            a2 = call(t.filter, lambda c: c.dev_lag("month") < bm)
+            a3 = call(t.clip, max_dev=bm, dev_lag_unit="months")
+            a4 = call(t.filter, lambda c: c.dev_lag("month") > bm)
+            if all(a[0] == "ok" for a in (a1, a2, a3, a4)):
+                add({"op": "partition", "a": w_cells(a1[1].cells), "b": w_cells(a2[1].cells)}, None,
+                    what=f"clip(min_dev={bm!r}) / filter(dev_lag('month') < {bm!r})")
+                add({"op": "partition", "a": w_cells(a3[1].cells), "b": w_cells(a4[1].cells)}, None,
+                    what=f"clip(max_dev={bm!r}) / filter(dev_lag('month') > {bm!r})")
+            else:
+                ctx.fail("clip with a single month-lag bound raised", {"cells": wcells, "bound": repr(bm)})
         b = date_candidates(rng, t, "period_start")
         a1 = call(t.clip, min_period=b)
         a2 = call(t.filter, lambda c: c.period_start < b)
@@ -925,7 +1015,7 @@ if __name__ == "__main__":
         correspondence=correspondence,
         level="proof" if not common.open_statements("Bermuda.Properties.C11") else "translation_validation",
         rule="random triangles (0-4 slices with up to four colliding detail keys, regular / ragged / day-level / "
-             "non-disjoint mixed-resolution layouts (periods sharing a start or an end, nested, containing), three cell classes, 1-4 fields with mixed coverage) x {clip with 0-6 bounds drawn from the "
+             "non-disjoint mixed-resolution layouts (periods sharing a start or an end, nested, containing) / mid-month layouts (month-end periods through months of 28-31 days, every cell evaluated on one day of the month) / valuation-date layouts (slices of one complete triangle standing at different valuation dates, one of them complete on the latest diagonal), three cell classes, 1-4 fields with mixed coverage) x {clip with 0-6 bounds drawn from the "
              "triangle's own dates and lags, +-1 day, +-1 month, out of range, date.min/max; single-bound clips; "
              "complementary clip/filter pairs; mask filters; select on every subset of fields; right_edge; slices; "
              "split on every subset of detail keys; t[p, e, m] with scalar/slice/None/':'/Metadata indices; "
